@@ -487,7 +487,23 @@ func c14Run(input string) string {
 				if n > 0 {
 					firstHop = meds[n-1]
 				}
-				if profile == "v2" {
+				if profile == "v2" && len(input)%2 == 0 {
+					// the destination as it is CREATED FROM THE RECIPIENT'S DID DOCUMENT: a DIDComm V2 service block whose
+					// endpoint lists the routing keys and - as the specification allows - no `accept`
+					doc := &did.Doc{ID: R.did, Context: []string{"https://www.w3.org/ns/did/v1"}}
+					doc.KeyAgreement = append(doc.KeyAgreement, w.docs[R.did].KeyAgreement...)
+					if nrec == 2 {
+						doc.KeyAgreement = append(doc.KeyAgreement, w.docs[w.agents["Rb"].did].KeyAgreement...)
+					}
+					doc.Service = []did.Service{{ID: R.did + "#svc", Type: "DIDCommMessaging", Accept: []string{mtp},
+						ServiceEndpoint: endpoint.NewDIDCommV2Endpoint([]endpoint.DIDCommV2Endpoint{{URI: firstHop.uri, RoutingKeys: rks}})}}
+					if d2, err := service.CreateDestination(doc); err == nil {
+						des = d2
+					} else {
+						des.ServiceEndpoint = endpoint.NewDIDCommV2Endpoint([]endpoint.DIDCommV2Endpoint{{URI: firstHop.uri,
+							Accept: []string{mtp}, RoutingKeys: rks}})
+					}
+				} else if profile == "v2" {
 					des.ServiceEndpoint = endpoint.NewDIDCommV2Endpoint([]endpoint.DIDCommV2Endpoint{{URI: firstHop.uri,
 						Accept: []string{mtp}, RoutingKeys: rks}})
 				} else {
